@@ -96,13 +96,18 @@ CLAIMED = {
         "valid only if its extent lies in the file and hashes to the index checksum, is marked failed if not, and gets one of the two "
         "marks (all failed when the override for a wrong whole-data checksum applies); both validators leave the descriptor at the data "
         "start with a fresh running checksum and touch nothing else of the reader state; the data verdict is 1 only for a complete body "
-        "hashing to the header's data checksum.  NOT proved: the overall verdict of the scan (1 iff every chunk and the data checksum "
-        "match), the detached-header rule and 'reads after validations = reads without'; these and file immutability are evaluated "
-        "against the reference decoder on all 3^n damage subsets, all truncation lengths, validations before AND after reads.",
+        "hashing to the header's data checksum.  THE OVERALL VERDICT IS PROVED (scan_verdict, from scanLoop_allGood and scanLoop_full): for a "
+        "file with data the scan reports success exactly when every chunk was marked valid by the chunk loop AND the bytes of the whole "
+        "data section hash to the data checksum (when every chunk was marked valid every read was complete, so the running checksum was "
+        "fed exactly the data section); if only the data checksum fails the verdict is failure and ALL chunks are marked failed; if a "
+        "chunk fails the marks are those of the chunk loop.  Detached header (scan_detached, verdict_detached): only the first entry is "
+        "scanned, every other mark is left alone.  NOT proved: 'reads after validations = reads without' beyond the restored state "
+        "(the reader model never reads the marks, but that it is insensitive to them is not a theorem); this and file immutability are "
+        "evaluated against the reference decoder on all 3^n damage subsets, all truncation lengths, validations before AND after reads.",
    design_ref="DESIGN.md section 7a",
-   note="Partial: per-chunk classification proved for all states; overall verdict, detached headers and read-after-validate are checked. "
+   note="Partial: per-chunk classification, overall verdict, override and the detached rule are proved for all on-disk states; read-after-validate beyond the restored reader state is checked. "
         "Hypothesis of the classification theorem: an empty dictionary entry has no stored bytes (the scan marks it valid unconditionally).",
-   technique="Lean 4 proof (induction over the chunk index with an exact-or-EOF read position invariant) + differential correspondence "
+   technique="Lean 4 proof (induction over the chunk index with an exact-or-EOF read position invariant; the loop's flag as a conjunction over the marks; the running checksum as the data section) + differential correspondence "
              "over damage subsets, truncations and validate/read sequences"),
  'C16': dict(
    text="Machine-checked proof (Lean 4) about the chunker model (automatic branch of zck_write with the buzhash state generated from the "
